@@ -108,7 +108,12 @@ func encodeReflect(t reflect.Type) fileMaker {
 }
 
 func makeReader(kind string, b []byte) avro.Reader {
+	kind, _, _ = strings.Cut(kind, "+")
 	switch kind {
+	case "buffer":
+		return bytes.NewBuffer(append([]byte{}, b...))
+	case "strings":
+		return strings.NewReader(string(b))
 	case "bufio":
 		return bufio.NewReaderSize(&chunkReader{b: b, max: 7}, 16)
 	case "onebyte":
@@ -133,13 +138,25 @@ type readResult struct {
 // fail at that record index with sentinel.
 func readBack(t reflect.Type, file []byte, reader string, pointer bool, failAt int, sentinel error) (res readResult) {
 	var banks []*avro.ResourceBank
-	var kept []reflect.Value
+	// kept[i] is the retained shallow copy of record i, or (when its bank was closed at once) nothing: the projection
+	// taken in the callback stands in for it
+	type keptRec struct {
+		v      reflect.Value
+		closed bool
+		proj   any
+	}
+	var kept []keptRec
+	_, pattern, _ := strings.Cut(reader, "+")
 	defer func() {
 		if r := recover(); r != nil {
 			res.panicked = fmt.Sprint(r)
 		}
-		for _, v := range kept {
-			res.recheck = append(res.recheck, safeProject(v))
+		for _, k := range kept {
+			if k.closed {
+				res.recheck = append(res.recheck, k.proj)
+			} else {
+				res.recheck = append(res.recheck, safeProject(k.v))
+			}
 		}
 		for _, b := range banks {
 			b.Close()
@@ -152,17 +169,25 @@ func readBack(t reflect.Type, file []byte, reader string, pointer bool, failAt i
 		out = reflect.New(t).Elem().Interface()
 	}
 	res.err = avro.ReadFile(makeReader(reader, file), out, func(val unsafe.Pointer, rb *avro.ResourceBank) error {
-		banks = append(banks, rb)
 		idx := res.calls
 		res.calls++
 		if idx == failAt {
+			banks = append(banks, rb)
 			return sentinel
 		}
 		v := reflect.NewAt(t, val).Elem()
-		res.delivered = append(res.delivered, safeProject(v))
+		proj := safeProject(v)
+		res.delivered = append(res.delivered, proj)
+		if pattern == "close" || (pattern == "closesome" && idx%2 == 0) {
+			// done with this record: its bank goes back at once (and may be handed out again for a later record)
+			rb.Close()
+			kept = append(kept, keptRec{closed: true, proj: proj})
+			return nil
+		}
+		banks = append(banks, rb)
 		cp := reflect.New(t).Elem()
 		cp.Set(v)
-		kept = append(kept, cp)
+		kept = append(kept, keptRec{v: cp})
 		return nil
 	})
 	return res
@@ -292,7 +317,7 @@ func genConfig(c *driverCtx, nvals int) rtConfig {
 			cfg.Flush[i] = true
 		}
 	}
-	cfg.Reader = []string{"bytes", "bufio", "onebyte", "chunk"}[c.rng.Intn(4)]
+	cfg.Reader = readerKinds[c.rng.Intn(len(readerKinds))]
 	cfg.Pointer = c.rng.Intn(2) == 0
 	return cfg
 }
@@ -368,7 +393,7 @@ func driveRoundTrip(c *driverCtx, prop string) error {
 		for k := 0; k < 3; k++ {
 			vals := wt.values(c)
 			// one big block; one record per block; small blocks
-			cfg := rtConfig{Codec: codecs3[k%3], Block: []int{1 << 20, 0, 64}[k], Flush: map[int]bool{}, Reader: []string{"bytes", "bufio", "chunk"}[k]}
+			cfg := rtConfig{Codec: codecs3[k%3], Block: []int{1 << 20, 0, 64}[k], Flush: map[int]bool{}, Reader: []string{"bytes", "bufio+closesome", "chunk+close"}[k]}
 			runRoundTrip(c, prop, wt.rtCase, vals, cfg, "witness|"+wt.name)
 		}
 	}
@@ -413,7 +438,7 @@ func driveRoundTrip(c *driverCtx, prop string) error {
 			}
 			for which := 0; which < 4; which++ {
 				vs := vals(mk(which), WSweep{Before: -1, After: "small"}, mk(which))(c)
-				cfg := rtConfig{Codec: codecs3[(i+which)%3], Block: []int{1 << 20, 0, 4096}[(i+which)%3], Flush: map[int]bool{}, Reader: readerKinds[(i+which)%4]}
+				cfg := rtConfig{Codec: codecs3[(i+which)%3], Block: []int{1 << 20, 0, 4096}[(i+which)%3], Flush: map[int]bool{}, Reader: readerKinds[(i+which)%len(readerKinds)]}
 				runRoundTrip(c, prop, st, vs, cfg, fmt.Sprintf("sweep|%s", []string{"string", "bytes", "list", "map"}[which]))
 			}
 		}
